@@ -49,6 +49,7 @@ func getCachedPath(expr string) []string {
 type Stack struct {
 	stack    []map[string]any // bottom..top, top is last element
 	rootData any              // original data passed to Render (for struct field fallback)
+	pooled   []int            // indexes into stack of the scopes that came from mapPool
 }
 
 // NewStack constructs a Stack with an optional initial root map (nil allowed).
@@ -92,6 +93,7 @@ func (s *Stack) Push(m map[string]any) {
 	if m == nil {
 		m = mapPool.Get().(map[string]any)
 		verifPoint(vpPoolGet, len(m), 0)
+		s.pooled = append(s.pooled, len(s.stack))
 	}
 	s.stack = append(s.stack, m)
 }
@@ -105,8 +107,10 @@ func (s *Stack) Pop() {
 	// Return the top map to the pool before removing it
 	topIdx := len(s.stack) - 1
 	topMap := s.stack[topIdx]
-	// Clear the map and return it to pool if it's not the root
-	if topIdx > 0 && len(topMap) > 0 {
+	// Clear the map and return it to the pool if it came from there. A map
+	// the caller pushed stays the caller's: it is neither wiped nor recycled.
+	if n := len(s.pooled); n > 0 && s.pooled[n-1] == topIdx {
+		s.pooled = s.pooled[:n-1]
 		for k := range topMap {
 			delete(topMap, k)
 		}
